@@ -13,6 +13,30 @@ STRENGTHENED = {
  'C10': 'missed at first: no driver flushed while every worker was busy with an unposted job pending. Added MT driver D12 (harness/c11_mt.c) and ran the MT drivers with C10 flush oracle (units c10-mt-*).',
  'C11': 'missed at first: the whole-API drivers at P<=2 never had two jobs asleep on the serial condition in inverted order. Added harness/c11_seams.c: the serial section and the buffer / cctx pools driven directly, every arrival order, every schedule (state cache, no preemption bound).',
 }
+STRENGTHENED.update({
+ 'C01-r2': 'missed at first (no two consecutive blocks whose literal alphabets differ in their top symbol). Added the block-type family `c01-blocks` / `c05-blocks`: each of the first 2-3 blocks one of 9 characters, 8 entry points incl. CDict / loadDictionary.',
+ 'C05-r2': 'missed at first (no dictionary entry point met a first block that is a single-byte run). Caught by the same block-type family, run in conformance mode (`c05-blocks`); C08 got two run-block shapes as well.',
+ 'C07-r2': 'missed at first (no multithreaded subject). Added unit `c07-mt` (sched-asan build, 1 KiB jobs, deterministic schedule): workers x LDM x call pattern x checksum x 7 prior histories on the same context.',
+ 'C11-r2': 'missed at first (every driver set windowLog explicitly). Added driver D13: level changed between 1 MiB jobs with the level-derived window, repeats 700 000 bytes back, judged by R.',
+ 'C15-r2': 'missed at first (C02 caught it). Added streaming with a flush after every 1792-byte chunk and the ring-resonant record shape to `c15-histories`.',
+ 'C17-r2': 'missed at first (no source had a block that becomes RLE). Added two source kinds whose every other block is a single-byte run.',
+ 'C18-r2': 'missed at first (the samples lived in a larger buffer, a 1-2 byte over-read met no redzone). The trainers now get allocations of exactly the samples / sizes length.',
+ 'C01-r3': 'missed at first (targetCBlockSize only split blocks of > 1340 compressed bytes; blocks were 1 KiB). Added block-size classes to the block-type family: 8 KiB blocks with / without targetCBlockSize, and 128 KiB blocks whose second block is 50 KiB of literal-free copies followed by new text.',
+ 'C02-r3': 'missed at first (decoder graphs only on records <= 160 B, never past the output ring). Added unit `c02-ring`: window 1 KiB, full blocks, a short block of c bytes, then a block with a match almost a window back and Huffman literals; streaming decode under 5 slicings against the one-shot result.',
+ 'C03-r3': 'missed at first (legacy seeds were the few frames of the test golden data). Added hand-built v0.5 / v0.6 / v0.7 frames with blocks at, one over and twice the window-limited block size.',
+ 'C05-r3': 'missed at first (no sequence-level entry in C05). C05 now runs the C17 enumeration judged by R (`c05-sequences`), and C17 got a variant with one explicitly delimited block above the block-size limit (refusal or a conformant frame).',
+ 'C06-r3': 'missed at first (capacity sweep only for single-call entries). Added entries that close the frame by a call of its own: stable-output streaming flush + end, and buffer-less continue + end(NULL,0), every total capacity.',
+ 'C07-r3': 'missed at first (no rsyncable subject, ample output only). `c07-mt` now has rsyncable (3 MiB input, 256 KiB jobs) and three output-room classes; the reference is a fresh context with ample room.',
+ 'C09-r3': 'missed at first by C09 (C16 caught it). Checksum bit flips are now also decoded on contexts that are nominally at defaults: verification switched off then full reset / parameter reset, heap and static.',
+ 'C10-r3': 'missed at first (only exact hint-following was walked). Added readers with a 1 / 2 / 3 / 5 / 16 / 64-byte buffer: content, every given byte taken, completion exactly at the frame end.',
+ 'C11-r3': 'missed at first by the output oracle. Caught by the new race detection: driver D14 (overlap = one job, half-size first job, one job of input per call) in the sched-tsan build reports the caller write racing the worker read.',
+ 'C13-r3': 'missed at first (after a refused allocation only the failed job was retried). After reset the context now first does a smaller, different job, then the retry.',
+ 'C14-r3': 'missed at first (no history longer than 3 calls). Added unit `c14-wear`: 300 small jobs, then one large job, on static contexts of exactly the estimated size.',
+ 'C15-r3': 'missed at first in the time budget (caught when the unit ran to completion). Added the repeated-record shape and denser LDM hashing; sources are exact-size allocations.',
+ 'C17-r3': 'missed at first (no literal run of 65536). Added the long-length family `c17-longlen`: literal run of 65535..65538 followed by a repcode match, own parse and ZSTD_generateSequences output.',
+ 'C20-r3': 'missed at first (archives had <= 28 frames). Added unit `c20-bigtable`: 10922..36000 one-byte frames, every accessor of every frame, reads around the load-buffer boundaries.',
+})
+
 def main():
     rows = collections.defaultdict(list)
     p = os.path.join(V, 'build/seedmatrix.tsv')
@@ -23,6 +47,7 @@ def main():
     for sid in sorted(os.listdir(os.path.join(V, 'seeded'))):
         d = os.path.join(V, 'seeded', sid)
         if not os.path.isdir(d): continue
+        if not os.path.exists(os.path.join(d, 'meta.agent.json')): continue
         a = json.load(open(os.path.join(d, 'meta.agent.json')))
         conf = {}
         for cp in (os.path.join(d, 'confirm.json'), '/tmp/seeded/%s/confirm.json' % sid):
@@ -31,7 +56,7 @@ def main():
         for r in rows.get(sid, []): latest[(r['check'], r['tier'])] = r
         det = sorted(latest.values(), key=lambda r: (r['check'], r['tier']))
         m = {
-            'property': a.get('property', sid[:3]),
+            'property': sid[:3], 'round': int(sid[5:]) if '-r' in sid else 1,
             'origin': 'fresh sub-agent given only the property text and a scratch worktree of /repo (nothing from /verif)',
             'what_changed': a.get('summary', ''),
             'needs_to_manifest': a.get('needs_to_manifest', ''),
@@ -41,9 +66,10 @@ def main():
                 'pinned_suite_with_change': 'make -C <worktree> check: exit %s' % conf.get('suite_exit', 0),
                 'demo_with_change': conf.get('demo_with_change', 'fail'),
                 'demo_without_change': conf.get('demo_without_change', 'pass'),
-                'how': 'tools/confirm_seed.sh in the scratch worktree (apply, build, suite, demo, revert, demo); see RUN.txt for the demo commands',
+                'how': 'tools/confirm_seed.sh (round 1) / tools/confirm_seed2.sh (later rounds) in the scratch worktree: patch applies to a clean tree, make check exit status, demo with the change, demo without it',
             },
-            'what_i_ran': 'tools/seedtest.sh %s <tier> <checks>: git -C /repo apply seeded/%s/patch.diff; ./vcheck run <check> --tier <tier>; git -C /repo checkout -- .' % (sid, sid),
+            'what_i_ran': ('tools/seedtest.sh %s <tier> <checks>: git -C /repo apply seeded/%s/patch.diff; ./vcheck run <check> --tier <tier>; git -C /repo checkout -- .' % (sid, sid)) if '-r' not in sid else
+                          ('tools/seedrun.sh seeded/%s <scratch worktree of /repo HEAD with the patch applied> <tier> <checks>: VERIF_REPO=<worktree> VERIF_OUT=<scratch> ./vcheck run <check> --tier <tier> (nothing under /repo or /verif/evidence is touched)' % sid),
             'detection': det,
             'caught_by': sorted({r['check'] + ':' + r['tier'] for r in det if r['violation_lines'] > 0}),
             'missed_by': sorted({r['check'] + ':' + r['tier'] for r in det if r['violation_lines'] == 0}),
